@@ -10,7 +10,7 @@ import sympy as sp
 
 from ..loader import U, AnalysisError
 from ..shapes import (ShapeLifter, Arr, Ax, TOP, nest_eq, nest_str, eq)
-from ..term import Tup, Opaque
+from ..term import Tup, Opaque, Unsupported
 
 ENG = 'shape-layout'
 
@@ -780,6 +780,18 @@ class _HierLifter(ShapeLifter):
 
     def _call(self, n, env, fn, depth, owner):
         f = U(n.func)
+        if f.startswith('self._log_likelihood.') and isinstance(
+                n.func, ast.Attribute) and depth < 3:
+            # the posterior's likelihood object: its method is substituted
+            # (the environment holds the likelihood's fields)
+            d = self.repo.cls('HierarchicalLogLikelihood').methods.get(
+                n.func.attr)
+            if d is not None:
+                try:
+                    return self._inline(d, n, env, fn, depth,
+                                        'HierarchicalLogLikelihood')
+                except Unsupported:
+                    return TOP
         if f.endswith('_population_model.n_parameters'):
             return N_TOP
         if f.endswith('_population_model.get_parameter_names'):
@@ -841,6 +853,33 @@ def r02_4(ctx, repo):
             ctx.error(rule, '%s.%s: %s' % (cls, m, e))
             continue
         _bottom_top(ctx, rule, repo, cls, fn, val, what, N_TOP)
+    # the posterior publishes the likelihood's names / IDs under every
+    # combination of its flags without re-pairing them
+    pcls = 'HierarchicalLogPosterior'
+    for m, flagsets in (('get_parameter_names',
+                         [dict(exclude_bottom_level=a, include_ids=b)
+                          for a in (False, True) for b in (False, True)]),
+                        ('get_id', [dict(unique=False)])):
+        fn = repo.cls(pcls).methods.get(m)
+        if fn is None:
+            continue
+        for fl in flagsets:
+            lf = _HierLifter(repo, pcls, flags=dict(fl))
+            env = _hier_env()
+            env.update(fl)
+            construct = '%s.%s' % (pcls, m)
+            try:
+                val = lf.run(fn, env)
+            except Exception as e:
+                ctx.error(rule, '%s: %s' % (construct, e))
+                continue
+            lf.events = [e for e in lf.events if e.kind == 'layout']
+            if _emit_events(ctx, rule, repo, pcls, fn, lf, construct):
+                continue
+            ctx.ok(rule, repo.loc(fn, pcls, m), construct,
+                   'no positional re-pairing of names and IDs under %s' % (
+                       ', '.join('%s=%s' % kv for kv in sorted(fl.items()))),
+                   engine=ENG)
     # cut point and roles in __call__ / evaluateS1
     for m in ('__call__', 'evaluateS1'):
         fn = repo.method(cls, m)
